@@ -64,11 +64,14 @@ pub fn gen_replay(rng: &mut Rng, k: usize, o: &GenOpts) -> (Replay, Vec<String>)
     let shape = if k % 2 == 0 { (k / 2) % 6 } else { (rng.next() % 6) as usize };
     match shape { 0 => r.end = None, 1 => r.metadata = None, 2 => r.double_end = true, 3 => { r.end = None; r.metadata = None; } _ => {} }
     if let Some(e) = r.end.as_mut() { e[0] = [0u8, 1, 2, 3, 7][(rng.next() % 5) as usize]; if e.len() >= 2 { e[1] = [255u8, 0, 1, 2, 3][(rng.next() % 5) as usize]; } if e.len() >= 6 { for j in 2..6 { e[j] = [255u8, 0, 1, 2, 3][(rng.next() % 5) as usize]; } } }
+    // the Game End block is as long as the payload table says, whatever the version: every layout the reader accepts (1, 2, 6 bytes, and longer) at any version
+    if k % 11 == 5 { if let Some(e) = r.end.as_mut() { let want = [6usize, 2, 1, 8, 2, 6][(k / 11) % 6]; let fill = [255u8, 255, 0, 1, 255, 2, 9, 9]; while e.len() < want { e.push(fill[e.len()]); } e.truncate(want); } }
     if gte(v,3,3) && rng.next() % 2 == 0 { let nb = 1 + (rng.next() % 3) as usize; let last = match rng.next() % 6 { 0 => 512, 1 => 1, 2 => 511, _ => 1 + (rng.next() % 512) as u32 }; let actual = (nb as u32 - 1) * 512 + last; r.gecko = Some((rng.bytes(512 * nb), actual)); }
     if rng.next() % 3 == 0 { let mut m = vec![]; gen_tree(rng, 1, &mut m); r.metadata = r.metadata.map(|_| m); }
     let tags = vec![format!("v{}.{}", v.0, v.1), format!("ports{}", pl.len()), format!("slots{}", nslots), (if r.frames.len() >= 255 { "frames255+".to_string() } else { format!("frames{}", r.frames.len().min(9)) }), format!("absent{}", absent.len().min(5)),
         format!("shape{}", shape), format!("gecko{}", r.gecko.is_some() as u8), format!("regime{}", if gte(v,3,0) { "A" } else if gte(v,2,2) { "B" } else { "C" }),
-        format!("maxitems:{}", match r.frames.iter().map(|f| f.items.len()).max().unwrap_or(0) { 0..=5 => "0-5", 6..=17 => "15-17", 18..=255 => "255", _ => "256+" })];
+        format!("maxitems:{}", match r.frames.iter().map(|f| f.items.len()).max().unwrap_or(0) { 0..=5 => "0-5", 6..=17 => "15-17", 18..=255 => "255", _ => "256+" }),
+        format!("endlen:{}", match &r.end { None => "none".to_string(), Some(e) => if e.len() == crate::gen::gend_size(v) { "nominal".to_string() } else { format!("{}", e.len()) } })];
     (r, tags)
 }
 
@@ -510,8 +513,11 @@ fn start(rng: &mut Rng, ctx: &mut Ctx) {
         let poison = if k % 8 == 7 { Some((rng.next() % 12) as usize) } else { None };
         let mut fill = |b: &mut Vec<u8>, off: usize, width: usize, slot: usize, rng: &mut Rng| {
             let toks: [&[u8]; 9] = [b"A", b"z", b"7", &[0x82, 0xa0], &[0x83, 0x41], &[0xb1], &[0x81, 0x49], &[0x81, 0x40], b"#"];
-            let target = (rng.next() as usize) % (width + 1); let mut j = 0;
-            while j < target { let t = toks[(rng.next() % 9) as usize]; if j + t.len() > target { break; } b[off + j..off + j + t.len()].copy_from_slice(t); j += t.len(); }
+            // one field in five is dense: a single class of character repeated up to (or one short of) the full width — half-width kana
+            // (1 byte -> 3 bytes of UTF-8, the longest decoded form a field can have), two-byte kana, ASCII
+            let dense = match rng.next() % 15 { 0 => Some(5usize), 1 => Some(3), 2 => Some(0), _ => None };
+            let target = if dense.is_some() { width - (rng.next() % 2) as usize } else { (rng.next() as usize) % (width + 1) }; let mut j = 0;
+            while j < target { let t = match dense { Some(5) => [&[0xb1u8][..], &[0xdf], &[0xa1], &[0xc0]][(rng.next() % 4) as usize], Some(d) => toks[d], None => toks[(rng.next() % 9) as usize] }; if j + t.len() > target { break; } b[off + j..off + j + t.len()].copy_from_slice(t); j += t.len(); }
             if poison == Some(slot) && width >= 2 { let at = if j >= 2 { (rng.next() as usize) % (j - 1) } else { 0 }; let bad: &[u8] = [&[0x82u8, 0x20][..], &[0xff, 0x41], &[0x81, 0x7f]][(rng.next() % 3) as usize]; b[off + at..off + at + 2].copy_from_slice(bad); j = j.max(at + 2); }
             if j < width { b[off + j] = 0; for x in j + 1..width { b[off + x] = (rng.next() >> 8) as u8; } }
         };
